@@ -177,6 +177,7 @@ pub fn run_check(a: &CheckArgs) -> i32 {
     let mut ends = BTreeMap::new();
     let mut families = BTreeMap::new();
     let mut flavours = BTreeMap::new();
+    let mut knobs = BTreeMap::new();
     let mut caps = BTreeMap::new();
     let mut waits = BTreeMap::new();
     let mut strategies = BTreeMap::new();
@@ -197,6 +198,7 @@ pub fn run_check(a: &CheckArgs) -> i32 {
         merge_map(&mut ends, r.get("ends"));
         merge_map(&mut families, r.get("families"));
         merge_map(&mut flavours, r.get("flavours"));
+        merge_map(&mut knobs, r.get("knobs"));
         merge_map(&mut caps, r.get("capacities"));
         merge_map(&mut waits, r.get("waits"));
         merge_map(&mut strategies, r.get("strategies"));
@@ -419,6 +421,7 @@ pub fn run_check(a: &CheckArgs) -> i32 {
         .set("ends", J::from_map(&ends))
         .set("families", J::from_map(&families))
         .set("flavours", J::from_map(&flavours))
+        .set("runs_with_knob", J::from_map(&knobs))
         .set("capacities_N", J::from_map(&caps))
         .set("wait_strategies", J::from_map(&waits))
         .set("scheduler_strategies", J::from_map(&strategies))
